@@ -15,7 +15,7 @@ pub const CHECK: Check = Check {
     id: "C09",
     run,
     case_fn,
-    rule: "cases = (one scalar value c as a one-character test case, a subset of the six conversion flags). Oracle: build([c]) is exactly ^\\X$ for the class token X that the documented precedence assigns to c using regex-syntax's own \\d/\\w/\\s tables, and a literal (not a class token) when no enabled class contains c; the output matches c on the real engine. Both tiers: every scalar value under the 6 single flags (the property's own quantifier, exhaustive) and all 64 subsets on all table boundaries (grex's and regex-syntax's) +-1; all 64 subsets on a seeded stride-13 sample of all scalars (quick) or on every scalar (thorough). Non-trivial = c lies in \\d, \\w or \\s or is a table boundary. Distinct = hash of (c, flags).",
+    rule: "cases = (one scalar value c as a one-character test case, a subset of the six conversion flags). Oracle: build([c]) is exactly ^\\X$ for the class token X that the documented precedence assigns to c using regex-syntax's own \\d/\\w/\\s tables, and a literal (not a class token) when no enabled class contains c; the output matches c on the real engine. Both tiers: every scalar value under the 6 single flags (the property's own quantifier, exhaustive) and all 64 subsets on all table boundaries (grex's and regex-syntax's) +-1; all 64 subsets on a seeded stride-13 sample of all scalars (quick) or on every scalar (thorough). Also both tiers: 240 inputs of 2-4 code points that grex keeps in one grapheme cluster (base + emoji modifier / halfwidth voicing mark / spacing mark / ZWJ, Prepend letter + base) x all 64 subsets, oracle = the sequence of class tokens in the pattern equals the per-code-point sequence from the documented precedence and the pattern matches. Non-trivial = c lies in \\d, \\w or \\s or is a table boundary. Distinct = hash of (c, flags).",
     assumptions: &["'the regex crate's class of that name' = regex-syntax 0.8.4 Unicode perl classes as parsed from \\d, \\w, \\s"],
 };
 
@@ -40,6 +40,9 @@ fn matches(pattern: &str, text: &str) -> Result<bool, String> {
 
 pub fn case_fn(_sub: &str, case: &Case, stats: &mut Stats) -> Result<(), String> {
     let cfg = &case.cfg;
+    if case.tcs.len() == 1 && (2..=4).contains(&case.tcs[0].chars().count()) {
+        return cluster_case(case, stats);
+    }
     let c = match case.tcs.first().and_then(|t| t.chars().next()) {
         Some(c) if case.tcs.len() == 1 && case.tcs[0].chars().count() == 1 => c,
         _ => return Ok(()),
@@ -71,6 +74,59 @@ pub fn case_fn(_sub: &str, case: &Case, stats: &mut Stats) -> Result<(), String>
         Ok(false) => Err(format!("U+{:04X} with {}: pattern {:?} does not match the character it was derived from", c as u32, cfg.tag(), p)),
         Err(e) => Err(format!("U+{:04X} with {}: pattern {:?} does not compile: {}", c as u32, cfg.tag(), p, e)),
     }
+}
+
+/// One test case of 2-4 code points (a base plus extenders that grex keeps in one grapheme cluster):
+/// the classification is still per code point. Oracle: the sequence of class tokens in the pattern is
+/// the sequence the documented precedence assigns to the code points one by one, and the pattern
+/// matches the test case. Bases never contain a backslash, so `\\d` etc. can only be class tokens.
+fn cluster_case(case: &Case, stats: &mut Stats) -> Result<(), String> {
+    let cfg = &case.cfg;
+    let t = &case.tcs[0];
+    if t.contains('\\') {
+        return Ok(());
+    }
+    stats.eval();
+    let want: Vec<char> = t.chars().filter_map(|c| documented_class(c, cfg)).collect();
+    if !want.is_empty() {
+        stats.nontrivial(case.key());
+    }
+    let p = build(&case.tcs, cfg).map_err(build_err)?;
+    stats.sample(|| json!({"tc": t, "cfg": cfg.tag(), "pattern": p}));
+    let mut got = Vec::new();
+    let mut it = p.chars();
+    while let Some(ch) = it.next() {
+        if ch == '\\' {
+            if let Some(n) = it.next() {
+                if "dwsDWS".contains(n) {
+                    got.push(n);
+                }
+            }
+        }
+    }
+    if got != want {
+        return Err(format!("{:?} with {}: class tokens per code point should be {:?} (regex crate's classes, documented precedence), pattern {:?} has {:?}", t, cfg.tag(), want, p, got));
+    }
+    match matches(&p, t) {
+        Ok(true) => Ok(()),
+        Ok(false) => Err(format!("{:?} with {}: pattern {:?} does not match the characters it was derived from", t, cfg.tag(), p)),
+        Err(e) => Err(format!("{:?} with {}: pattern {:?} does not compile: {}", t, cfg.tag(), p, e)),
+    }
+}
+
+fn cluster_inputs() -> Vec<String> {
+    let bases = ['a', 'Z', '1', '\u{0663}', ' ', '\u{2003}', '-', '(', '\u{e9}', '\u{4e2d}', '_', '\u{1F600}'];
+    let exts = ['\u{1F3FB}', '\u{1F3FD}', '\u{1F3FF}', '\u{FF9E}', '\u{FF9F}', '\u{0E33}', '\u{0301}', '\u{200D}', '\u{0903}'];
+    let mut v = Vec::new();
+    for b in bases {
+        for e in exts {
+            v.push(format!("{b}{e}"));
+            v.push(format!("{b}{e}{e}"));
+        }
+        v.push(format!("\u{0D4E}{b}"));
+        v.push(format!("\u{0D4E}{b}\u{1F3FB}"));
+    }
+    v
 }
 
 fn single_flag_cfgs() -> Vec<Cfg> {
@@ -152,6 +208,10 @@ fn run(ctx: &mut Ctx) {
     };
     // all 64 subsets (63 non-empty + the empty one as control) on every boundary point
     ctx.exhaustive("boundaries x 64 subsets", nb * 64, &|i| bcase(b[(i / 64) as usize], mask_cfg((i % 64) as u32)), &case_fn);
+
+    // classification inside multi-code-point grapheme clusters: every input x all 64 subsets
+    let cl = cluster_inputs();
+    ctx.exhaustive("cluster context x 64 subsets", cl.len() as u64 * 64, &|i| Case::new(vec![cl[(i / 64) as usize].clone()], mask_cfg((i % 64) as u32)), &case_fn);
 
     let singles = single_flag_cfgs();
     // the property's own quantifier, exhaustively, in BOTH tiers: all 1,112,064 scalar values x the 6
